@@ -116,7 +116,7 @@ def _case(i):
             res['hist']['interpreter_differs_from_reference(see C01)'] = 1
         info['interpreter'] = base.brief()
         for level in (0, 1, 2):
-            st, what, src = K.build_exe(wd, path, level)
+            st, what, src = K.build_exe(wd, path, level, _RUN.get('numlib'))
             res['hist']['build:%d:%s' % (level, st)] = 1
             sig = 'L%d:%s' % (level, res['key'])
             if st == 'infra':
@@ -158,11 +158,20 @@ def main(tier, seed):
     rep = C.Reporter(PID, tier, seed)
     C.build(['repo', 'core', 'numlib'])
     C.sweep_stale_tmp()
-    n = 320 if tier == 'quick' else 6000
+    n = 320 if tier == 'quick' else 12000
     rundir = C.mktmp(PID)
     _RUN.update(tier=tier, seed=seed, dir=rundir)
     results = C.pmap(_case, list(range(n)), chunksize=2, stop_after_bad=40,
                      is_bad=lambda r: any(it[0] == 'v' for it in r['items']))
+    release_cases = 0
+    if tier == 'thorough':
+        # the real `hyeong build` compiles with cargo --release: repeat a slice optimised, against the release library
+        C.build(['numlib_release'])
+        _RUN.update(tier='thorough-release', numlib=C.NUMLIB_REL)
+        extra = C.pmap(_case, list(range(600)), chunksize=2, stop_after_bad=40,
+                       is_bad=lambda r: any(it[0] == 'v' for it in r['items']))
+        release_cases = sum(1 for r in extra if not r['status'].startswith('reject'))
+        results += extra
     hist, srcs, featc, rejects = {}, {}, {}, {}
     evaluated = 0
     nontrivial = set()
@@ -192,6 +201,7 @@ def main(tier, seed):
                 'with `hyeong run -O0`. non-trivial = the reference run exercised a listed feature; distinct by program text + stdin.',
         'samples': samples, 'generated': n, 'rejected_by_admission': rejects, 'sources': srcs,
         'features_observed': featc, 'histogram': hist, 'executables_built_and_run': compiled,
+        'cases_compiled_optimised_against_release_library': release_cases,
     }
     assumptions = ['the number-only library the executables link against is built from the CURRENT /repo working tree (dev profile, overflow checks on)',
                    'the real `hyeong build` sub-command needs the network and is not used; build_source + rustc is what the property prescribes',
